@@ -106,12 +106,22 @@ fn user_span(span: Span) -> Span {
     s
 }
 
+macro_rules! full_paths {
+    ($e:expr) => {
+        rustc_middle::ty::print::with_resolve_crate_name!(
+            rustc_middle::ty::print::with_no_visible_paths!(
+                rustc_middle::ty::print::with_no_trimmed_paths!($e)
+            )
+        )
+    };
+}
+
 fn ty_str<'tcx>(ty: Ty<'tcx>) -> String {
-    rustc_middle::ty::print::with_no_trimmed_paths!(format!("{}", ty))
+    full_paths!(format!("{}", ty))
 }
 
 fn dpath(tcx: TyCtxt<'_>, d: DefId) -> String {
-    rustc_middle::ty::print::with_no_trimmed_paths!(tcx.def_path_str(d))
+    full_paths!(tcx.def_path_str(d))
 }
 
 fn ty_tree<'tcx>(tcx: TyCtxt<'tcx>, ty: Ty<'tcx>, depth: usize) -> J {
@@ -290,7 +300,7 @@ impl<'a, 'tcx> BodyCx<'a, 'tcx> {
                 if let TyKind::Adt(d, _) = ty.kind() {
                     fields.push(("adt", J::s(dpath(tcx, d.did()))));
                 }
-                let txt = rustc_middle::ty::print::with_no_trimmed_paths!(format!("{}", c));
+                let txt = full_paths!(format!("{}", c));
                 let mut t = txt;
                 if t.len() > 160 {
                     t.truncate(160);
@@ -760,9 +770,7 @@ fn dump_crate<'tcx>(tcx: TyCtxt<'tcx>, crate_name: &str) -> J {
                 if of_trait {
                     let tr = tcx.impl_trait_ref(did).instantiate_identity().skip_norm_wip();
                     f.push(("trait", J::s(dpath(tcx, tr.def_id))));
-                    f.push(("trait_ref", J::s(rustc_middle::ty::print::with_no_trimmed_paths!(
-                        format!("{}", tr)
-                    ))));
+                    f.push(("trait_ref", J::s(full_paths!(format!("{}", tr)))));
                     f.push(("negative", J::Bool(matches!(
                         tcx.impl_polarity(did),
                         ty::ImplPolarity::Negative
